@@ -53,6 +53,7 @@ class SeededClocks:
         self.ticks = 0
         self.rises = {d: 0 for d in self.domains}
         self.coincident = 0
+        self.current = set()
 
     def _expand(self, ds):
         out = []
@@ -77,6 +78,7 @@ class SeededClocks:
             k = self.pos
             self.pos += 1
             ds = [self.domains[k % n]]
+        self.current = set(ds)
         for d in ds:
             self.rises[d] += 1
         if len(ds) > 1:
@@ -100,7 +102,8 @@ class Bench:
         self.max_cycles = max_cycles
         self.tail = tail
         self.cycle = {d: 0 for d in self.domains}
-        self.last_event = 0
+        self.last_event = 0     # tick number of the last recorded event
+        self.clocks = None
         self.stop = False
         self.stop_on_violation = False   # online monitors record the first violation; history oracles need the full run
         self.timed_out = False
@@ -138,7 +141,7 @@ class Bench:
 
     def event(self, *ev):
         self.log.append(ev)
-        self.last_event = self.cycle[self.domains[0]]
+        self.last_event = self.clocks.ticks if self.clocks is not None else 0
 
     # -- coordinator -----------------------------------------------------------------------------
     def _coord(self, cd, main):
